@@ -67,11 +67,12 @@ class LayoutScenario(explore.Scenario):
     skip_class_names = ()
 
     def __init__(self, tier, inits=("fresh", "warm", "loaded"), big=False,
-                 lean=False):
+                 lean=False, focus=False):
         self.tier = tier
         self.inits = list(inits)
         self.big = big
         self.lean = lean
+        self.focus = focus
         self.qs = queries(tier, big)
         self.addr_dom = ADDR_DOM + (((1 << 64) - 4,) if big else ())
 
@@ -142,6 +143,25 @@ class LayoutScenario(explore.Scenario):
 
     # ----------------------------------------------------------------- ops
     def ops(self, w):
+        if self.focus:
+            # the two "movers" only (K4, B4): attach / detach / edit while
+            # away / come back, with lookups anywhere in between
+            out = []
+            for t in ("B1", "B2", None):
+                out.append(["kmove", "K4", t])
+            for o in KOFF_DOM:
+                out.append(["koff", "K4", o])
+            for s_ in KSIZE_DOM:
+                out.append(["ksize", "K4", s_])
+            for t in ("S1", "S2", None):
+                out.append(["bmove", "B4", t])
+            for a in self.addr_dom:
+                out.append(["baddr", "B4", a])
+            for s_ in BSIZE_DOM:
+                out.append(["bsize", "B4", s_])
+            for sc in ("all", "B1", "S1"):
+                out.append(["lookup", sc])
+            return out
         out = []
         for b in INTERVALS:
             for a in self.addr_dom:
@@ -160,6 +180,8 @@ class LayoutScenario(explore.Scenario):
                 out.append(["bmove", b, t])
         out += [["blocks", "B1", "clear", None], ["blocks", "B1", "update", ["K4"]],
                 ["blocks", "B1", "discard", "K1"], ["blocks", "B2", "add", "K1"],
+                ["blocks", "B2", "update", ["K1", "K2"]],
+                ["ivs", "S2", "update", ["B1", "B2"]],
                 ["ivs", "S1", "clear", None], ["ivs", "S1", "update", ["B4"]],
                 ["ivs", "S1", "discard", "B1"], ["ivs", "S2", "add", "B1"]]
         for t in ("M2", "M1", None):
@@ -494,15 +516,19 @@ def run(ctx):
     install_lazy_counters()
     prop = ctx.prop
     if ctx.tier == "quick":
-        plans = [(CountingLayout("quick"), 1)]
+        plans = [(CountingLayout("quick"), 1),
+                 (CountingLayout("quick", inits=("warm",), focus=True), 2)]
     else:
         plans = [(CountingLayout("thorough"), 2),
+                 (CountingLayout("quick", inits=("warm", "loaded"),
+                                 focus=True), 4),
                  (CountingLayout("quick", inits=("warm",), big=True), 1)]
     covs = []
     for sc, depth in plans:
         cov = explore.explore(ctx, sc, max_depth=depth, probe_leaves=True,
-                              label="layout(depth<=%d%s)" % (
-                                  depth + 1, ",big" if sc.big else ""))
+                              label="layout(depth<=%d%s%s)" % (
+                                  depth + 1, ",big" if sc.big else "",
+                                  ",movers-only" if sc.focus else ""))
         cov["queries_per_state"] = len(sc.qs)
         covs.append(cov)
         if ctx.out_of_time(0.9):
@@ -534,6 +560,7 @@ def run(ctx):
 def replay(doc):
     install_lazy_counters()
     sc = LayoutScenario("thorough", big="big" in doc.get("scenario", ""))
+    # (the movers-only alphabet is a subset: replay needs no special case)
     res = []
     for init, hist in ((doc["init"], doc["history"]),
                        (doc.get("init2"), doc.get("history2"))):
